@@ -37,7 +37,8 @@ PROPS = {
                       'the proofs; that its profile delivers the effective gain is a bounded stand-in (four shipped amplifier '
                       'models x gains x tilts x input shapes, 0.02 dB); a one-channel spectrum raises IndexError (finding F16)',
         'trusted': NUMPY_TRUST + ['Edfa._gain_profile (assumed contract)'],
-        'extra': [{'name': 'amp_gain', 'kind': 'bounded', 'script': 'bounded/amp_gain.py', 'timeout': 1200}],
+        'extra': [{'name': 'amp_gain', 'kind': 'bounded', 'script': 'bounded/amp_gain.py', 'timeout': 1200},
+                  {'name': 'params_load', 'kind': 'bounded', 'script': 'bounded/params_load.py', 'timeout': 900}],
     },
     'C06': {
         'level': 'proof',
@@ -178,7 +179,7 @@ PROPS = {
                       'powers were attempted as two-run harnesses and stay undecided by the solvers: not claimed. Order '
                       'independence follows from the constructor contract of C07 (arrays sorted by one permutation).',
         'trusted': NUMPY_TRUST + ['arcsinh as an uninterpreted increasing odd function; PI, 10 log10(e) as bounded constants'],
-        'extra': [],
+        'extra': [{'name': 'params_load', 'kind': 'bounded', 'script': 'bounded/params_load.py', 'timeout': 900}],
     },
     'C05': {
         'level': 'proof',
@@ -199,7 +200,8 @@ PROPS = {
                                   'RamanSolver.calculate_stimulated/spontaneous_raman_scattering (opaque in RamanFiber.propagate)',
                                   'Fiber.beta3, Fiber.gamma (assumed pure per-channel coefficients)'],
         'extra': [{'name': 'lumped_losses', 'kind': 'bounded', 'script': 'bounded/lumped_losses.py'},
-                  {'name': 'raman', 'kind': 'bounded', 'script': 'bounded/raman.py', 'timeout': 1800}],
+                  {'name': 'raman', 'kind': 'bounded', 'script': 'bounded/raman.py', 'timeout': 1800},
+                  {'name': 'params_load', 'kind': 'bounded', 'script': 'bounded/params_load.py', 'timeout': 900}],
     },
     'C11': {
         'level': 'other',
